@@ -1,13 +1,13 @@
 SPECIFICATION Spec
 CONSTANTS
-  Cases <- ImplCases
+  Cases <- CasesG
   Expand <- McExpand
   Esc = "escape"
-  Header = "dup"
+  Header = "first"
   Merge = "grid"
   Sep = "each"
   Dedup = "none"
-  Width = "widest"
+  Width = "first"
   MaxSpecial = 1
   FullCells = 0
   MaxRepeat = 2
